@@ -9,8 +9,20 @@ package main
 //             success path, or the function returns a nil error / no error at all,
 //             without the value (or something computed from it) having been
 //             returned, stored, sent or passed on
+//   unused    the value is compared at most (`if err != nil { /* TODO */ }` leaves a comparison   → violation
+//             and no branch), or kept in a local variable / list / struct nobody hands on
+// "The value" is followed through interface conversions, phis and variables that live in
+// memory because a closure or a defer captures them; tests are recognised through negation,
+// named conditions, len forms and module predicates (`failed(err)`). Handing on means: returned,
+// sent, stored into memory that is not this activation's own, or passed to a callee that does
+// one of these (module callees are looked into; pure formatting and the process log do not
+// count — the formatted RESULT is followed instead). The failure-side walk knows what the
+// guarding tests establish, so `if err == nil { x, err = g() }; if err != nil { return err }`
+// and break-then-test-after-the-loop are understood, and `return nil, err` with an `err` that
+// is known to be nil there is the return of nil.
 // Deliberate instances are frozen in errTable with a reason; callees that provably never
-// fail discharge their drops automatically.
+// fail discharge their drops automatically; a tabled drop also covers the same call written
+// as `if err := f(); err != nil { return }`.
 
 import (
 	"fmt"
@@ -69,9 +81,11 @@ func errSources(fn *ssa.Function) (srcs []errSource, dropped []errSource) {
 		}
 		for _, i := range errIdx {
 			var ex *ssa.Extract
-			for _, ref := range *call.Referrers() {
-				if e, ok := ref.(*ssa.Extract); ok && e.Index == i {
-					ex = e
+			if refs := call.Referrers(); refs != nil {
+				for _, ref := range *refs {
+					if e, ok := ref.(*ssa.Extract); ok && e.Index == i {
+						ex = e
+					}
 				}
 			}
 			if ex == nil || ex.Referrers() == nil || len(*ex.Referrers()) == 0 {
@@ -108,7 +122,12 @@ func namedOfShort(t types.Type) string {
 }
 
 // neverFails: every return of the (module) callee yields a nil constant for the error-like
-// result at index i. For AsyncMapReduce the error list is nil iff the map function never fails.
+// result at index i. For AsyncMapReduce only one direction holds and only that one is used: when
+// the map function never fails, the error list is nil (errors come from mapFunc alone: R1/A2,A4,A8).
+// The converse is FALSE (audit 9, E-C1): a map function that fails with an error which
+// gqlerrors.ExtendErrorList/FormatError turns into no entries (a non-nil but empty ErrorList
+// returned as `error`) leaves the list nil and its element missing from the accumulator — a nil
+// list from AsyncMapReduce is therefore no proof that every element was mapped.
 // documentedInfallible: library writers whose documentation states that the returned error is
 // always nil (strings.Builder: "always returns a nil error"; bytes.Buffer: "err is always nil";
 // hash.Hash: "It never returns an error").
@@ -564,7 +583,11 @@ func handlesErrD(ins ssa.Instruction, tainted map[ssa.Value]bool, depth int) boo
 
 // isErrPredicate: the call only asks a yes/no question (its single result is a bool).
 func isErrPredicate(c *ssa.CallCommon) bool {
-	res := c.Signature().Results()
+	sig := c.Signature()
+	if sig == nil {
+		return false
+	}
+	res := sig.Results()
 	if res == nil || res.Len() != 1 {
 		return false
 	}
@@ -1123,6 +1146,12 @@ func firstPos(b *ssa.BasicBlock) token.Pos {
 	for _, i := range b.Instrs {
 		if i.Pos().IsValid() {
 			return i.Pos()
+		}
+		// a loop header or a merge block may consist of position-less bookkeeping: use what it works on
+		for _, op := range operandsOf(i) {
+			if op.Pos().IsValid() {
+				return op.Pos()
+			}
 		}
 	}
 	return token.NoPos
